@@ -25,7 +25,11 @@ func c01SingleSteps() []string {
 			out = append(out, ax+"::"+t)
 		}
 	}
-	out = append(out, "a", "@x", ".", "..", "*", "@*", "node()", "text()", "//a", "//*", "//@x", "//@*", "//node()", ".//a", "../a", "../*", "../@x", "./a", "//.", "//..", "@p:x", "@p:*", "@*:x", "p:a", "p:*", "*:a")
+	out = append(out, "a", "@x", ".", "..", "*", "@*", "node()", "text()", "//a", "//*", "//@x", "//@*", "//node()", ".//a", "../a", "../*", "../@x", "./a", "//.", "//..", "@p:x", "@p:*", "@*:x", "p:a", "p:*", "*:a",
+		// the principal node type changes along a path
+		"@*/self::*", "@x/self::x", "@*/self::node()", "namespace::*/self::*", "@*/../self::*", "@x/../self::a", "@*/parent::*", "namespace::*/parent::*/self::*", "@*/ancestor-or-self::*", "@*/descendant-or-self::*",
+		"@*/./self::*", "namespace::*/../*", "@*/../@*", "@*/../namespace::*", "namespace::*/../@*/self::x", "*/@*/self::x", "*/@*/..", "@*[self::x]", "@*[self::*]", "*[self::a]/@*[.. = ..]", "self::*/@*/self::node()",
+		"//@*/self::x", "//@*/self::*", "//namespace::*/self::*", "//@*/../self::a", "//@*/../self::b", "//@x/../*", "//namespace::*/../self::*")
 	return out
 }
 
@@ -52,7 +56,7 @@ func c01TwoSteps(full bool) []string {
 					if a2 == "namespace" && t2 == "a" {
 						continue
 					}
-					if !full && !(t1 == "node()" && t2 == "node()") && !(t1 == "*" && t2 == "a") {
+					if !full && !(t1 == "node()" && t2 == "node()") && !(t1 == "*" && t2 == "a") && !(t1 == "*" && t2 == "*") && !(t1 == "node()" && t2 == "*") {
 						continue
 					}
 					out = append(out, a1+"::"+t1+"/"+a2+"::"+t2)
